@@ -531,6 +531,9 @@ func (s *expSession) checkWire(prop string) {
 			continue
 		}
 		c := s.calls[w.Call]
+		if c.Expect == "error" {
+			continue // this message should not exist at all: reported by checkNoInvalid, not compared here
+		}
 		if len(recs) != len(c.Records) {
 			s.env.Violate("wire-data-count", loc, "wire message %d: %d records on the wire, %d handed", i, len(recs), len(c.Records))
 			continue
@@ -659,8 +662,6 @@ func (s *expSession) checkNoInvalid() {
 			s.env.Violate("invalid-accepted", c.Kind+":"+clauseWord(c.Why), "call %d (%s): %s, but SendSet returned success (%d bytes)", ci, c.Kind, c.Why, c.N)
 		case c.Err != nil && wrote != 0 && !s.isClosedErr(c):
 			s.env.Violate("error-but-wrote", c.Kind, "call %d (%s): SendSet returned error %q but %d bytes reached the connection", ci, c.Kind, c.Err, wrote)
-		case c.Valid && c.Err != nil && !s.closedBefore(c):
-			s.env.Violate("valid-rejected", c.Kind, "call %d (%s): valid set (message %d bytes) rejected: %v", ci, c.Kind, c.MsgLen, c.Err)
 		}
 	}
 	for i, w := range pw {
